@@ -8,6 +8,17 @@
 (*                         pinword_contains(w, u);  truth: s contained in  *)
 (*                         PinPerm(w).  A wrong answer that the deviation  *)
 (*                         FactorsMayTouch explains is marked "dev".       *)
+(* Single-purpose events for words beyond the machine's bound (words are   *)
+(* sequences of one-letter strings, indices 0-based as in the code):       *)
+(*   Factors(w, res)       factor_pinword of a numeral-led (or empty) word *)
+(*   SpToM(w, res)         sp_to_m of a non-empty strict pin word: the     *)
+(*                         direction words phi maps to w, without repeats  *)
+(*   MToSp(m, res)         m_to_sp of a direction word of length >= 2      *)
+(*   Occ(w, u, res, c)     list(pinword_occurrences(w, u)) and             *)
+(*                         pinword_contains(w, u); any lengths, u may be   *)
+(*                         longer than w, equal to w, or empty             *)
+(*   OccSP(w, u, res, c)   pinword_occurrences_sp / pinword_contains_sp    *)
+(*                         for a non-empty strict u                        *)
 (***************************************************************************)
 EXTENDS Pin, Json, IOUtils
 CONSTANTS TPattLen
@@ -17,6 +28,14 @@ Ev == Trace[l]
 Flag(clause) == Append(bad, [i |-> l, clause |-> clause])
 Sigmas == PPermsBetween(0, TPattLen)
 WordsOfPerm == [s \in Sigmas |-> {u \in PinWordsOf(Len(s)) : PinPerm(u) = s}]
+ToSetOf(s) == {s[i] : i \in DOMAIN s}
+ZeroBased(T) == {[j \in DOMAIN t |-> t[j] - 1] : t \in T}
+
+\* the cheap forms used below are the definitions of module Pin (checked on every short word)
+ASSUME \A n \in 1..3 : \A w \in {x \in PinWordsOf(n) : PinIsStrict(x)} : PinSPtoMFast(w) = PinSPtoM(w)
+ASSUME \A w \in PinWordsOf(2) \cup PinWordsOf(3) : \A u \in PinWordsOf(0) \cup PinWordsOf(1) \cup PinWordsOf(2) :
+          \A b \in BOOLEAN : PinOccTuplesQ(w, u, b) = PinOccTuples(w, u, b)
+
 TInit == l = 1 /\ bad = <<>>
 TPerm == Ev.op = "Perm" /\ bad' = IF Ev.res = PinPerm(Ev.w) THEN bad ELSE Flag("DecodesToPinPermutation")
 TQuad == Ev.op = "Quad" /\ bad' = IF Ev.res = PinQuadrantOf(PinConfig(Ev.w), Ev.i + 1) THEN bad ELSE Flag("QuadrantOfPin")
@@ -25,6 +44,23 @@ TContains == /\ Ev.op = "Contains"
                 bad' = IF Ev.res = truth THEN bad
                        ELSE IF Ev.res = (\E u \in WordsOfPerm[Ev.s] : PinContainsWord(Ev.w, u, TRUE)) THEN Flag("dev:FactorsMayTouch")
                        ELSE Flag("ContainmentReflected")
-TNext == l <= Len(Trace) /\ l' = l + 1 /\ (TPerm \/ TQuad \/ TContains)
+TFactors == Ev.op = "Factors" /\ bad' = IF Ev.res = PinFactors(Ev.w) THEN bad ELSE Flag("Factors")
+TSpToM == /\ Ev.op = "SpToM"
+          /\ LET want == PinSPtoMFast(Ev.w) IN
+             bad' = IF ToSetOf(Ev.res) = want /\ Len(Ev.res) = Cardinality(want) THEN bad ELSE Flag("TranslationsInverse")
+TMToSp == Ev.op = "MToSp" /\ bad' = IF Ev.res = PinMtoSP(Ev.m) THEN bad ELSE Flag("TranslationsInverse")
+\* the occurrence list against the ideal factor search; the listed known deviation is named
+OccVerdict(res, c, ideal, dev, clause) ==
+    IF ToSetOf(res) = ideal /\ Len(res) = Cardinality(ideal) /\ c = (ideal # {}) THEN bad
+    ELSE IF ToSetOf(res) = dev /\ Len(res) = Cardinality(dev) /\ c = (dev # {}) THEN Flag("dev:FactorsMayTouch")
+    ELSE IF ToSetOf(res) = ideal /\ Len(res) = Cardinality(ideal) THEN Flag("ContainsAgreesWithOccurrences")
+    ELSE Flag(clause)
+TOcc == /\ Ev.op = "Occ"
+        /\ \E ideal \in {ZeroBased(PinOccTuplesQ(Ev.w, Ev.u, FALSE))} : \E dev \in {ZeroBased(PinOccTuplesQ(Ev.w, Ev.u, TRUE))} :
+              bad' = OccVerdict(Ev.res, Ev.c, ideal, dev, "FactorOccurrences")
+TOccSP == /\ Ev.op = "OccSP"
+          /\ \E ideal \in {{t[1] - 1 : t \in PinOccTuplesQ(Ev.w, Ev.u, FALSE)}} :
+                bad' = OccVerdict(Ev.res, Ev.c, ideal, ideal, "StrictFactorOccurrences")
+TNext == l <= Len(Trace) /\ l' = l + 1 /\ (TPerm \/ TQuad \/ TContains \/ TFactors \/ TSpToM \/ TMToSp \/ TOcc \/ TOccSP)
 TraceDone == l = Len(Trace) + 1 => PrintT(ToJson([verdict |-> bad, drift |-> <<>>, n |-> Len(Trace)]))
 =============================================================================
